@@ -8,7 +8,7 @@ SPEC = dict(
            74: "remote_device_set_up_twice", 75: "completed_without_trust", 76: "spine_datagrams_not_exactly_once_in_order",
            77: "completed_after_user_cancel_in_hello_phase"},
     rule="shipdrv -prop pair: a real client-role and a real server-role ship.ShipConnection joined by two FIFO queues owned "
-         "by the harness, which is the scheduler. 11 directed configurations first (among them the recorded finding), then "
+         "by the harness, which is the scheduler. 15 directed configurations first (among them the recorded finding), then "
          "random configurations (paired/auto/allow/approves/cancels x stored-id unknown/right/wrong per side) with a random "
          "schedule of the labels of Pair.v: deliver the oldest frame in either direction, approve, cancel, timer expiry on "
          "either side (only when nothing else can happen and the user has acted - and, in the directed patient runs and a third of the random ones, up to three expiries of the pending server's timer before the user acts: prolongation rounds), a real 1.25 s wait for the time.After "
